@@ -136,6 +136,31 @@ def e_arg_default(rng, d):
     return n, {"FieldArgumentDefaultValueChange"}, {"FieldArgumentDefaultValueChange"}, a["name"]
 
 
+def e_required_by_default_removal(rng, d):
+    """the default value of a NON-NULL argument / input field / directive argument is removed: the element becomes
+    required, operations relying on the default become invalid -> BREAKING (reverse: a default is added: not breaking)"""
+    n = copy.deepcopy(d)
+    cands = []
+    for t in _objs(n):
+        for f in _own_fields(n, t):
+            for a in f["args"]:
+                if a["type"][0] == "nonNull" and a.get("default") is not None:
+                    cands.append(("FieldArgumentDefaultValueChange", a))
+    for t in _objs(n, ("input",)):
+        for f in t["fields"]:
+            if f["type"][0] == "nonNull" and f.get("default") is not None:
+                cands.append(("InputFieldDefaultValueChange", f))
+    for dd in n["directives"]:
+        for a in dd["args"]:
+            if a["type"][0] == "nonNull" and a.get("default") is not None:
+                cands.append(("DirectiveArgumentDefaultValueChange", a))
+    if not cands:
+        return None
+    cls, a = rng.choice(cands)
+    a["default"] = None
+    return n, {cls}, {cls}, a["name"], ("became-required", cls)
+
+
 def e_null_default(rng, d):
     """add (fwd) / remove (rev) an explicit `= null` default on a nullable argument, input field or directive argument"""
     n = copy.deepcopy(d)
@@ -404,7 +429,7 @@ def e_root_added(rng, d):
     return n, {"RootTypeAdded"}, {"RootTypeRemoved"}, target
 
 
-EDITS = [e_root_repoint, e_root_added, e_interface_arg_removed, e_interface_arg_default, e_add_type, e_add_field, e_retype_field, e_add_arg, e_retype_arg, e_arg_default, e_null_default, e_add_input_field,
+EDITS = [e_root_repoint, e_root_added, e_required_by_default_removal, e_interface_arg_removed, e_interface_arg_default, e_add_type, e_add_field, e_retype_field, e_add_arg, e_retype_arg, e_arg_default, e_null_default, e_add_input_field,
          e_retype_input_field, e_add_enum_value, e_enum_deprecation, e_field_deprecation, e_union_member,
          e_implement_interface, e_add_directive, e_directive_location, e_directive_arg, e_retype_directive_arg,
          e_change_kind]
@@ -480,6 +505,11 @@ def check_pair(ctx, rng, edit_name, old_d, new_d, expected, element, extra, dire
         fails.append(("edit-not-reported:%s:%s" % (edit_name, direction),
                       "edit %s (%s) of element %s not reported by a change of class %s; got %s"
                       % (edit_name, direction, element, sorted(real_expected), sorted(classes))))
+    if extra and extra[0] == "became-required" and named:
+        sev = named[0][1]
+        if direction == "fwd" and sev != BREAKING:
+            fails.append(("default-removal-makes-required-not-breaking:%s" % extra[1],
+                          "the default of a non-null %s was removed (it becomes required) but severity is %d" % (extra[1], sev)))
     if extra and extra[0] in ("added-arg", "added-input-field") and direction == "fwd" and named:
         req = extra[1]
         sev = named[0][1]
